@@ -572,9 +572,12 @@ def mon_ledger(h, obs, prop):
     flushed, flushed_unknown = None, set()     # the reference state at the last flush: what the coming commit persists
     uncommitted = False      # a flush that was not committed yet
     next_commit = 1
+    snap_live, snap_gen, snap_ctr = set(), [], 0      # ids the ledger handed out / snapshots taken (by number) since the last Finalise
     for op, o in zip(h.ops, obs):
         ws = op.split()
         k0 = ws[0]
+        if k0 in ("open", "reopen", "finalise"):
+            snap_live, snap_gen, snap_ctr = set(), [], 0
         if k0 == "open":
             flushed, flushed_unknown = None, set()
             continue
@@ -616,9 +619,23 @@ def mon_ledger(h, obs, prop):
             if len(ws) > 3:
                 code_hash[ws[2]] = ws[3]
         elif k0 == "snap":
+            # "nested snapshots revert independently": every snapshot is its own revision — the id handed out is not the id of a
+            # snapshot that is still live, and a live snapshot can be reverted to (seeding round 29)
+            if o.isdigit() and int(o) in snap_live:
+                hit("C13", "C13/snapshot-id-handed-out-twice",
+                    f"snapshot id {o} was handed out while the snapshot with that id is still live ({sorted(snap_live)}): reverting the inner one consumes the outer one", detail=op)
+            if o.isdigit():
+                snap_live.add(int(o))
+            snap_gen.append(snap_ctr)
+            snap_ctr += 1
             ref.snaps.append((int(o) if o.isdigit() else len(ref.snaps), len(ref.journal)))
         elif k0 == "revert":
             sid = int(ws[1])
+            if sid in snap_gen:
+                if (o or "").startswith("PANIC"):
+                    hit("C13", "C13/live-snapshot-not-revertible", f"revert to snapshot {sid}, taken since the last Finalise and not reverted through, answered {o}", detail=op)
+                snap_gen = [x for x in snap_gen if x < sid]
+            snap_live = {x for x in snap_live if x < sid}
             idx = None
             for (i, n) in ref.snaps:
                 if i == sid:
